@@ -4,7 +4,7 @@
    filters: external code) is a parameter of every statement: the theorems hold for any matcher and any filter. *)
 From Coq Require Import List NArith ZArith.
 From Muscle Require Import Refl.Base Refl.Matcher Refl.Session Refl.Server Refl.Bounded Refl.BoundedSpec
-  Refl.BoundedProofs Refl.BoundedRefuted.
+  Refl.BoundedProofs Refl.BoundedRefuted Refl.BoundedServe.
 Import ListNotations.
 
 (* JettisonOutgoingResults (repaired loop, RemoveData(name, j)): for every queue and every matcher it returns as soon as
@@ -44,6 +44,30 @@ Theorem C07_server_run_total : forall (M : MatchOps) (fx : fixes) (fuel : nat) (
   2 <= fuel -> rpeak fx evs b < fuel -> brun fx true fuel evs b = Some (brun_spec fx evs b).
 Proof. exact @server_run_total. Qed.
 Print Assumptions C07_server_run_total.
+
+(* THE PROPERTY in model form.  For every state in which client w is attached and reading, and every finite history of
+   events of OTHER sessions -- any modelled command with any patterns and filters, batches of any nesting, sessions
+   arriving and leaving, clients that stop reading while their replies pile up -- w is still attached and reading
+   afterwards and its PING is answered (PONG delivered) in the very event-loop turn that dispatches it. *)
+Theorem C07_witness_ping_answered : forall (M : MatchOps) (fx : fixes) (evs : list bevent) (b : bserver) (w : sid) (t : N),
+  serving b w -> (forall ev, In ev evs -> ev_sid ev <> w) ->
+  serving (brun_spec fx evs b) w /\
+  delivered (bstep_spec fx (brun_spec fx evs b) (BCmd w (BPing t))) w (OPong t).
+Proof. exact @witness_ping_answered. Qed.
+Print Assumptions C07_witness_ping_answered.
+
+(* ... and on the fuelled semantics (the loops as the code writes them): the whole history followed by the ping returns
+   as soon as the fuel exceeds the heaviest queued Message any jettison pass meets, and the PONG is delivered. *)
+Theorem C07_witness_ping_answered_fuel : forall (M : MatchOps) (fx : fixes) (fuel : nat) (evs : list bevent) (b : bserver) (w : sid) (t : N),
+  serving b w -> (forall ev, In ev evs -> ev_sid ev <> w) ->
+  2 <= fuel -> rpeak fx (evs ++ [BCmd w (BPing t)]) b < fuel ->
+  exists b', brun fx true fuel (evs ++ [BCmd w (BPing t)]) b = Some b' /\ delivered b' w (OPong t).
+Proof. exact @witness_ping_answered_fuel. Qed.
+Print Assumptions C07_witness_ping_answered_fuel.
+
+(* non-vacuity: a reachable state with a served witness next to a client that does not read and has replies queued *)
+Example C07_serving_satisfiable : @serving tiny_ops w_state 0%N /\ ~ @serving tiny_ops w_state 1%N.
+Proof. exact w_serving. Qed.
 
 (* finding F4: the loop as found (RemoveData(name, i), the queue index) does not return -- a reachable state and a
    structurally valid Message for which the handler is out of fuel for every fuel.  Replayed on the real server. *)
